@@ -99,6 +99,11 @@ func (pr *playerRunner) UpdateTableState(table *pokertable.Table) error {
 			return nil
 		}
 
+		// the status becomes playing before the first hand state is published
+		if gs == nil {
+			return nil
+		}
+
 		// Filtering private information fpr player
 		gs.AsPlayer(gamePlayerIdx)
 
